@@ -105,6 +105,17 @@ CLAIMED["C11"] = dict(
          "covered by C16's check; dde_approx is exercised in the thorough tier only.",
     design_ref="DESIGN.md §4 C11")
 
+CLAIMED["C10"] = dict(
+    technique="Hypothesis-generated delayed models; function-level differential with a hand-made history callable "
+              "(values and query times), run-level differential against a method-of-steps reference",
+    text="past()/x(t-tau) terms (literal and parameter delays, several per variable) and delayed edges under an "
+         "adaptive solver: the compiled function called with a known smooth history must evaluate every delayed term "
+         "as the right component of hist(t-tau) (t in time units for both solver families); run(euler) must equal the "
+         "method-of-steps Euler recurrence, run(scipy) must stay near a fine-step reference.",
+    note="NumPy backend, vectorize=False; scipy run tolerance 3e-2 (only gross errors); edge delays kept above the step "
+         "size (shorter ones are neglected by design); negative numeric past coefficients are a listed finding.",
+    design_ref="DESIGN.md §4 C10")
+
 NOT_YET = {}
 
 
